@@ -299,6 +299,11 @@ theorem inv3_step (s s' : St) (e : Ev) (h : Inv3 s) (hC : CInv s) (hs : step s e
     split at hs
     · simp at hs; subst hs; exact h
     · simp at hs
+  | boff k b =>
+    simp only [step] at hs
+    split at hs
+    · simp at hs; subst hs; exact h
+    · simp at hs
   | probe j c =>
     simp only [step] at hs
     split at hs
